@@ -391,6 +391,40 @@ def mapcompose(ctx, E, crate, fa, ok_b, stores):
                {"callee": cpath, "bindings": roots})
 
 
+def _peel(fa, pl):
+    """`(x as Some).0`, `(x as Ok).0` .. where x is built by `Some(y)` / `Ok(y)` aggregates: the place
+    of y (the value that went into the wrapper), through any number of wrappers and plain copies."""
+    for _ in range(8):
+        if pl is None:
+            return pl
+        p = pl["p"]
+        if len(p) >= 2 and isinstance(p[0], dict) and "dc" in p[0] and isinstance(p[1], dict) and "f" in p[1]:
+            want = p[0].get("n")
+            cands = [d for d in fa.defs().get(pl["l"], [])
+                     if d[2] == "assign" and d[3]["k"] == "agg" and d[3].get("variant") == want and len(d[3]["ops"]) > p[1]["f"]]
+            if not cands:
+                # a plain copy of another local (the return slot of an expanded closure / helper)
+                d1 = fa.single_def(pl["l"])
+                if d1 is not None and d1[2] == "assign" and d1[3]["k"] == "use" and op_place(d1[3]["op"]) is not None \
+                        and not op_place(d1[3]["op"])["p"]:
+                    pl = {"l": op_place(d1[3]["op"])["l"], "p": list(p)}
+                    continue
+            if len(cands) != 1:
+                return pl
+            ip = op_place(cands[0][3]["ops"][p[1]["f"]])
+            if ip is None:
+                return pl
+            pl = {"l": ip["l"], "p": list(ip["p"]) + list(p[2:])}
+            continue
+        if not p:
+            d = fa.single_def(pl["l"])
+            if d is not None and d[2] == "assign" and d[3]["k"] == "use" and op_place(d[3]["op"]) is not None:
+                pl = op_place(d[3]["op"])
+                continue
+        return pl
+    return pl
+
+
 def mapkeep_user(ctx, E, crate):
     fa = E.fa(P_RESET)
     ok_b, err_b, other_b = result_exits(fa)
@@ -415,7 +449,7 @@ def mapkeep_user(ctx, E, crate):
                        "a `None` argument stores `None` (clears the user lexicon)")
                 continue
             n_some += 1
-            xpl = op_place(payload["ops"][0])
+            xpl = _peel(fa, op_place(payload["ops"][0]))
             xap = E.ap_place(fa, xpl)
             # (i) mapped under the stored mapper
             mcalls = [(cb, ct) for cb, ct in calls_named(fa, MAPFN)
@@ -424,7 +458,10 @@ def mapkeep_user(ctx, E, crate):
             through = {cb for cb, ct in mcalls}
             for (sb, some_t, none_ts) in switch_on_discriminant_of(E, fa, map_ap):
                 through.update(none_ts)
-            ok = bool(mcalls) and must_pass(fa, b, through)
+            # judged at the point where `Some(new lexicon)` is built (the store itself may be one
+            # statement shared with the `None` case: `field = reader.map(..).transpose()?`)
+            from flow import reach_const as _rc0
+            ok = bool(mcalls) and (db in through or db not in _rc0(fa, 0, avoid=through))
             ctx.ob("MAPKEEP", "%s|translated-by-stored-mapper" % P_RESET, ok, fa.loc(b),
                    "a user lexicon loaded into a mapped dictionary is translated with the stored "
                    "mapper before it is installed" if ok else
@@ -456,11 +493,12 @@ def mapkeep_user(ctx, E, crate):
                     continue
                 f_t, t_t = bool_switch_targets(swt)
                 bad = t_t if neg else f_t
-                r = fa.reachable(bad)
-                if (r & ok_b) or b in r:
+                from flow import reach_const as _rc
+                r = _rc(fa, bad)
+                if (r & ok_b) or db in r:
                     why = "the failing outcome of verify() still reaches the store / Ok"
                     continue
-                if not fa.dominates(vb, b):
+                if not fa.dominates(vb, db) and db in _rc(fa, 0, avoid={vb}):
                     why = "the store is not dominated by verify()"
                     continue
                 # The order of verify() and the translation is free: the mapper is a validated
@@ -494,13 +532,16 @@ def mapkeep_user(ctx, E, crate):
     okn = True
     for (sb, some_t, none_ts) in sws:
         fa_none = FnA(fa.fn, removed={(sb, some_t)})
-        live = fa_none.reachable(0)
+        from flow import reach_const as _rc1
+        live = _rc1(fa_none, 0)
         for (b, i, s0) in stores:
             if b not in live:
                 continue
             rv = s0["rv"]
             pl = op_place(rv["op"]) if rv["k"] == "use" else None
-            defs = value_defs(fa, pl["l"]) if pl is not None else []
+            # the values that can be stored when the reader is None: definitions on blocks that
+            # are still reachable with the Some edge removed
+            defs = [d_ for d_ in (value_defs(fa, pl["l"]) if pl is not None else []) if d_[0] in live]
             if not defs or not all(kind == "assign" and payload["k"] == "agg" and
                                    payload.get("variant") == "None" for (db, kind, payload) in defs):
                 okn = False
